@@ -97,6 +97,50 @@ static void do_sim(vf_case *c) {
 	if (m == 0) { transitions++; if (!gt_is_unity(e)) vf_fail(NULL, "pc_map_sim over no pairs is not 1"); } else { char w[96]; snprintf(w, sizeof w, "pc_map_sim over %d pairs, identity mask %x", m, mask); expect_pow(w, e, acc); }
 	for (int i = 0; i < 3; i++) { g1_free(P[i]); g2_free(Q[i]); } gt_free(e); mpz_clears(acc, t, NULL); bn_free(k);
 }
+
+/* alt: the Tate and Weil pairings offered for k = 12, 16, 18 (map 0 Tate, 1 Weil; ia, ib; representation). Each map has its own value B = map(G1, G2),
+ * read once per process and checked by the reference (B != 1, B^r = 1); bilinearity: map([a]G1, [b]G2) = B^(ab). Multi-pairing form with an
+ * identity mask over three pairs as in sim (args: map, 100 + mask, rot, m). */
+#if RLC_GT_EMBED == 12 || RLC_GT_EMBED == 16 || RLC_GT_EMBED == 18
+#define HAVE_ALT 1
+#define PPN(name) RLC_CAT(RLC_CAT(name, _k), RLC_GT_EMBED)
+static relt ALTB[2]; static int alt_ready[2] = {0, 0};
+/* finding L47: at K16_P330 the Tate and Weil pairings are not bilinear (relic's own test_pp fails in that build) */
+#define ALT_KF (RLC_GT_EMBED == 16 ? "L47-k16-tate-and-weil-pairings-not-bilinear" : NULL)
+static void alt_map(int mp, gt_t e, const g1_t P, const g2_t Q) { if (mp) PPN(pp_map_weilp)(e, P, Q); else PPN(pp_map_tatep)(e, P, Q); }
+static void alt_sim(int mp, gt_t e, const g1_t *P, const g2_t *Q, int m) { if (mp) PPN(pp_map_sim_weilp)(e, P, Q, m); else PPN(pp_map_sim_tatep)(e, P, Q, m); }
+static int alt_base(int mp) {
+	if (alt_ready[mp] == -2) { vf_fail(ALT_KF, "%s pairing of the generators does not have order r in the reference tower", mp ? "Weil" : "Tate"); return 0; }
+	if (alt_ready[mp]) return alt_ready[mp] > 0; alt_ready[mp] = -1; relt_init(&ALTB[mp]); gt_t e; gt_null(e); gt_new(e); int th; VF_TRY(th, alt_map(mp, e, P0, Q0)); if (th || !get_gt(&ALTB[mp], e)) return 0;
+	transitions += 2; if (gx_is_one(T, &ALTB[mp])) { vf_fail(NULL, "%s pairing of the generators is the identity: degenerate", mp ? "Weil" : "Tate"); return 0; }
+	gx_pow(T, &Xr, &ALTB[mp], R); if (!gx_is_one(T, &Xr)) { vf_fail(ALT_KF, "%s pairing of the generators does not have order r in the reference tower", mp ? "Weil" : "Tate"); alt_ready[mp] = -2; return 0; }
+	alt_ready[mp] = 1; gt_free(e); return 1;
+}
+static void expect_alt(int mp, const char *what, const gt_t got, const mpz_t e) {
+	mpz_t m; mpz_init(m); mpz_mod(m, e, R); gx_pow(T, &Xr, &ALTB[mp], m); mpz_clear(m); transitions++;
+	if (!get_gt(&Yr, got)) { vf_fail(NULL, "%s: result has a non-canonical coefficient", what); return; }
+	if (!relt_eq(T, &Xr, &Yr)) vf_fail(ALT_KF, "%s: the value differs from the generator pairing raised to the product of the scalars (reference tower)", what);
+}
+static void do_alt(vf_case *c) {
+	int mp = (int)mpz_get_si(c->v[0]), ia = (int)mpz_get_si(c->v[1]), ib = (int)mpz_get_si(c->v[2]), rep = (int)mpz_get_si(c->v[3]), th; const char *mn = mp ? "Weil" : "Tate";
+	if (!T || !ready) { vf_fail(NULL, "reference tower not available"); return; } if (!alt_base(mp)) { if (alt_ready[mp] != -2) vf_fail(NULL, "%s pairing of the generators could not be computed", mn); return; }
+	gt_t e; gt_null(e); gt_new(e); bn_t k; bn_null(k); bn_new(k); char w[120];
+	if (ia >= 100) { /* multi-pairing */ unsigned mask = (unsigned)(ia - 100); int rot = ib, m = rep; g1_t P[3]; g2_t Q[3]; mpz_t acc, t; mpz_inits(acc, t, NULL); static const int SA[] = {10, 2, 4, 11, 15, 8}, SB[] = {11, 14, 3, 10, 16, 4};
+		for (int i = 0; i < 3; i++) { g1_null(P[i]); g1_new(P[i]); g2_null(Q[i]); g2_new(Q[i]); int a = SA[(i + rot) % 6], b = SB[(i + 2 * rot) % 6];
+			if (mask & (1u << (2 * i))) { g1_set_infty(P[i]); mpz_set_ui(t, 0); } else { sc_bn(k, a); g1_mul_gen(P[i], k); mpz_set(t, SC[a]); }
+			if (mask & (2u << (2 * i))) { g2_set_infty(Q[i]); mpz_set_ui(t, 0); } else { sc_bn(k, b); g2_mul_gen(Q[i], k); mpz_mul(t, t, SC[b]); }
+			if (i < m) mpz_add(acc, acc, t); }
+		VF_TRY(th, alt_sim(mp, e, P, Q, m)); snprintf(w, sizeof w, "%s multi-pairing over %d pairs, identity mask %x", mn, m, mask);
+		if (th) vf_fail(NULL, "%s raised", w); else if (m == 0) { transitions++; if (!gt_is_unity(e)) vf_fail(NULL, "%s is not 1", w); } else expect_alt(mp, w, e, acc);
+		for (int i = 0; i < 3; i++) { g1_free(P[i]); g2_free(Q[i]); } mpz_clears(acc, t, NULL);
+	} else { g1_t P; g2_t Q; g1_null(P); g1_new(P); g2_null(Q); g2_new(Q); mpz_t ab; mpz_init(ab); sc_bn(k, ia); VF_TRY(th, g1_mul(P, P0, k)); sc_bn(k, ib); VF_TRY(th, g2_mul(Q, Q0, k)); mpz_mul(ab, SC[ia], SC[ib]);
+		if (rep) { g1_t t; g2_t u; g1_null(t); g1_new(t); g2_null(u); g2_new(u); g1_sub(t, P, P0); g1_add(P, t, P0); g2_sub(u, Q, Q0); g2_add(Q, u, Q0); g1_free(t); g2_free(u); }
+		VF_TRY(th, alt_map(mp, e, P, Q)); snprintf(w, sizeof w, "%s pairing e([s%d]G1, [s%d]G2)%s", mn, ia, ib, rep ? " on un-normalised points" : "");
+		if (th) vf_fail(NULL, "%s raised", w); else { expect_alt(mp, w, e, ab); transitions++; if ((g1_is_infty(P) || g2_is_infty(Q)) && !gt_is_unity(e)) vf_fail(NULL, "%s: pairing with the identity is not 1", w); }
+		mpz_clear(ab); g1_free(P); g2_free(Q); }
+	gt_free(e); bn_free(k);
+}
+#endif
 /* g2m: routine, scalar index */
 static const char *G2R[] = {"g2_mul", "g2_mul_gen", "g2_mul_sec", "g2_mul_dig", "g2_mul_pre+fix", "mul_basic", "mul_slide", "mul_monty", "mul_lwnaf", "mul_lwreg", "mul_gen", "g2_mul_sim", "mul_sim_basic", "mul_sim_trick", "mul_sim_inter", "mul_sim_joint", "g2_mul_sim_gen", "g2_mul_sim_lot", "g2_mul_sim_dig",
 	"pre/fix basic", "pre/fix yaowi", "pre/fix nafwi", "pre/fix combs", "pre/fix combd", "pre/fix lwnaf", "g2_mul_any"};
@@ -198,6 +242,41 @@ static void do_cod(vf_case *c) {
 		gt_free(A); gt_free(B); }
 	bn_free(k);
 }
+
+/* dec: decoding of altered encodings of G1 / G2 points. args grp (1, 2), index, pack, mutation, chunk. The encoding of [j]G is altered (tag
+ * values, one coordinate chunk replaced by itself + p (same residue, not reduced), by p, by all ones, by zero, incremented) and offered to
+ * the decoder with THREE differently prepared destinations (identity, a finite point, a byte pattern): the verdicts must agree (the verdict
+ * may not depend on what the destination held), an accepted string must give a point on the curve whose re-encoding in the same format and
+ * length reproduces the input, and a chunk that is not below p is never accepted. */
+static int dec_once(int grp, void *dst_g1, void *dst_g2, const uint8_t *in, size_t len, int pack, uint8_t *re, int *on) {
+	int th; *on = 1;
+	if (grp == 1) { g1_st *B = dst_g1; VF_TRY(th, g1_read_bin(B, in, len)); transitions++; if (th) return 0; *on = g1_is_infty(B) || g1_on_curve(B); size_t l2 = (size_t)g1_size_bin(B, pack); if (l2 != len) { memset(re, 0, len); re[0] = 0xEE; return 1; } VF_TRY(th, g1_write_bin(re, len, B, pack)); if (th) { memset(re, 0, len); re[0] = 0xED; } return 1; }
+	G2FN(st) *B = dst_g2; VF_TRY(th, g2_read_bin(B, in, len)); transitions++; if (th) return 0; *on = g2_is_infty(B) || g2_on_curve(B); size_t l2 = (size_t)g2_size_bin(B, pack); if (l2 != len) { memset(re, 0, len); re[0] = 0xEE; return 1; } VF_TRY(th, g2_write_bin(re, len, B, pack)); if (th) { memset(re, 0, len); re[0] = 0xED; } return 1;
+}
+static void do_dec(vf_case *c) {
+	int grp = (int)mpz_get_si(c->v[0]), jj = (int)mpz_get_si(c->v[1]), pack = (int)mpz_get_si(c->v[2]), mut = (int)mpz_get_si(c->v[3]), ch = (int)mpz_get_si(c->v[4]), th; long j = LI[jj];
+	static uint8_t buf[4200], re[3][4200]; bn_t k; bn_null(k); bn_new(k); if (j < 0) { bn_set_dig(k, (dig_t)(-j)); bn_neg(k, k); } else bn_set_dig(k, (dig_t)j);
+	g1_t A1, D1[3]; g2_t A2, D2[3]; g1_null(A1); g1_new(A1); g2_null(A2); g2_new(A2); for (int i = 0; i < 3; i++) { g1_null(D1[i]); g1_new(D1[i]); g2_null(D2[i]); g2_new(D2[i]); }
+	size_t len; if (grp == 1) { g1_mul_gen(A1, k); len = (size_t)g1_size_bin(A1, pack); VF_TRY(th, g1_write_bin(buf, len, A1, pack)); } else { g2_mul_gen(A2, k); len = (size_t)g2_size_bin(A2, pack); VF_TRY(th, g2_write_bin(buf, len, A2, pack)); }
+	if (th || len < 1 || len > 4000) goto out; /* judged by op cod */
+	size_t nch = (len - 1) / RLC_FP_BYTES; int unreduced = 0;
+	if (mut >= 100) { buf[0] = (uint8_t)(mut - 100); } /* tag value */
+	else if (len > 1) { if ((size_t)ch >= nch) goto out; uint8_t *q = buf + 1 + (size_t)ch * RLC_FP_BYTES; mpz_t v, pm; mpz_inits(v, pm, NULL); mpz_import(v, RLC_FP_BYTES, 1, 1, 1, 0, q); { bn_t pp; bn_null(pp); bn_new(pp); pp->used = RLC_FP_DIGS; pp->sign = RLC_POS; dv_copy(pp->dp, fp_prime_get(), RLC_FP_DIGS); vf_bn_get(pm, pp); bn_free(pp); }
+		switch (mut) { case 0: break; case 1: mpz_add(v, v, pm); break; case 2: mpz_set(v, pm); break; case 3: mpz_set_ui(v, 1); mpz_mul_2exp(v, v, 8 * RLC_FP_BYTES); mpz_sub_ui(v, v, 1); break; case 4: mpz_set_ui(v, 0); break; case 5: mpz_add_ui(v, v, 1); break; default: mpz_sub_ui(v, v, 1); if (mpz_sgn(v) < 0) mpz_set_ui(v, 2); break; }
+		if (mpz_sizeinbase(v, 2) > 8 * RLC_FP_BYTES) { mpz_clears(v, pm, NULL); goto out; } unreduced = mpz_cmp(v, pm) >= 0;
+		memset(q, 0, RLC_FP_BYTES); if (mpz_sgn(v)) { size_t n = (mpz_sizeinbase(v, 2) + 7) / 8; mpz_export(q + RLC_FP_BYTES - n, NULL, 1, 1, 1, 0, v); } mpz_clears(v, pm, NULL); }
+	else if (mut != 0) goto out;
+	/* three destinations */
+	g1_set_infty(D1[0]); g2_set_infty(D2[0]); g1_get_gen(D1[1]); g2_get_gen(D2[1]); memset(D1[2], 0x5A, sizeof(g1_st)); memset(D2[2], 0x5A, sizeof(G2FN(st))); D1[2]->coord = BASIC; D2[2]->coord = BASIC;
+	int ok[3], on[3]; for (int i = 0; i < 3; i++) ok[i] = dec_once(grp, D1[i], D2[i], buf, len, pack, re[i], &on[i]);
+	const char *gn = grp == 1 ? "g1_read_bin" : "g2_read_bin"; char w[160]; snprintf(w, sizeof w, "%s(encoding of [%ld]G, pack %d, mutation %d of chunk %d, tag %02x)", gn, j, pack, mut, ch, buf[0]);
+	if (ok[0] != ok[1] || ok[0] != ok[2]) vf_fail(NULL, "%s: the verdict depends on the previous content of the destination (identity %d, generator %d, pattern %d)", w, ok[0], ok[1], ok[2]);
+	for (int i = 0; i < 3; i++) if (ok[i]) { if (!on[i]) { vf_fail(NULL, "%s: accepted, and the result is not on the curve", w); break; } if (unreduced) { vf_fail(NULL, "%s: accepted a coordinate that is not below p", w); break; }
+		if (memcmp(re[i], buf, len)) { vf_fail(NULL, "%s: accepted, but re-encoding in the same format and length gives other bytes (first byte %02x)", w, re[i][0]); break; } }
+	if (mut == 0 && !ok[0]) vf_fail(NULL, "%s: the unaltered encoding was refused", w);
+out:
+	g1_free(A1); g2_free(A2); for (int i = 0; i < 3; i++) { g1_free(D1[i]); g2_free(D2[i]); } bn_free(k);
+}
 /* g2f: power, index, representation: the Frobenius endomorphism acts on G2 as multiplication by p: e(G1, frb^i([j]G2)) = E0^(j p^i) */
 static void do_g2f(vf_case *c) {
 	int pw = (int)mpz_get_si(c->v[0]), jj = (int)mpz_get_si(c->v[1]), proj = (int)mpz_get_si(c->v[2]), th; long j = LI[jj]; g2_t A, X; g2_null(A); g2_new(A); g2_null(X); g2_new(X); mk_g2(A, j, proj && j != 0);
@@ -254,15 +333,27 @@ static void do_val(vf_case *c) {
 static void run_case(vf_case *c) {
 	vf_nontrivial(); if (!vf_replaying) vf_stat_add("states", 1);
 	if (!strcmp(c->op, "base")) { do_base(c); return; } if (!ready) return;
+#ifdef HAVE_ALT
+	if (!strcmp(c->op, "alt")) { do_alt(c); return; }
+#endif
+	if (!strcmp(c->op, "dec")) { do_dec(c); return; }
 	if (!strcmp(c->op, "bil")) do_bil(c); else if (!strcmp(c->op, "sim")) do_sim(c); else if (!strcmp(c->op, "g2m")) do_g2m(c); else if (!strcmp(c->op, "g1m")) do_g1m(c); else if (!strcmp(c->op, "g2l")) do_g2l(c); else if (!strcmp(c->op, "g2f")) do_g2f(c); else if (!strcmp(c->op, "g2c")) do_g2c(c); else if (!strcmp(c->op, "g2n")) do_g2n(c); else if (!strcmp(c->op, "cod")) do_cod(c); else if (!strcmp(c->op, "map")) do_map(c); else if (!strcmp(c->op, "gte")) do_gte(c); else if (!strcmp(c->op, "val")) do_val(c); else vf_fail(NULL, "unknown op");
 }
 static vf_case K;
 #define RUN2(OP, A, B) do { if (vf_mine() && !vf_expired()) { K.op = OP; K.n = 2; mpz_set_si(K.v[0], A); mpz_set_si(K.v[1], B); vf_run(&K); } } while (0)
+#define RUN4(OP, A, B, C, D) do { if (vf_mine() && !vf_expired()) { K.op = OP; K.n = 4; mpz_set_si(K.v[0], A); mpz_set_si(K.v[1], B); mpz_set_si(K.v[2], C); mpz_set_si(K.v[3], D); vf_run(&K); } } while (0)
 #define RUN3(OP, A, B, C) do { if (vf_mine() && !vf_expired()) { K.op = OP; K.n = 3; mpz_set_si(K.v[0], A); mpz_set_si(K.v[1], B); mpz_set_si(K.v[2], C); vf_run(&K); } } while (0)
 static void enumerate(void) {
 	vf_case_init(&K); char bn[64];
 	if (vf_shard == 0) { K.op = "base"; K.n = 0; vf_run(&K); printf("@INFO build: parameter set %d, embedding degree %d, G2 over F_p^%d\n", ep_param_get(), K_, G2D); }
 	snprintf(bn, sizeof bn, "c04-k%d-bilinearity-scalar-alphabet-squared", K_); if (vf_bound_on(bn)) { for (int a = 0; a < NSC; a++) for (int b = 0; b < NSC; b++) for (int rep = 0; rep < 2; rep++) { if (rep && (a + b) % 3) continue; RUN3("bil", a, b, rep); } vf_bound_done(bn); }
+#ifdef HAVE_ALT
+	snprintf(bn, sizeof bn, "c04-k%d-tate-and-weil-bilinearity-and-multi-pairings", K_); if (vf_bound_on(bn)) {
+		/* the Weil pairing costs several Miller loops: the quick tier takes every second scalar of the alphabet for it */
+		for (int mp = 0; mp < 2; mp++) { int st = (vf_tier || !mp) ? 1 : 2; for (int a = 0; a < NSC; a += st) for (int b = 0; b < NSC; b += st) for (int rep = 0; rep < 2; rep++) { if (rep && (a + b) % 3) continue; RUN4("alt", mp, a, b, rep); }
+			for (int m = 0; m <= 3; m++) for (unsigned mask = 0; mask < 64; mask += (vf_tier ? 1 : 3)) for (int rot = 0; rot < 2; rot++) { if (m < 3 && (mask >> (2 * m))) continue; RUN4("alt", mp, 100 + (int)mask, rot, m); } }
+		vf_bound_done(bn); }
+#endif
 	snprintf(bn, sizeof bn, "c04-k%d-multi-pairing-identity-patterns", K_); if (vf_bound_on(bn)) { for (int m = 0; m <= 3; m++) for (unsigned mask = 0; mask < 64; mask++) for (int rot = 0; rot < 2; rot++) { if (m < 3 && (mask >> (2 * m))) continue; RUN3("sim", (long)mask, rot, m); } vf_bound_done(bn); }
 	snprintf(bn, sizeof bn, "c11-k%d-g2-every-multiplication-routine", K_); if (vf_bound_on(bn)) { for (int rt = 0; rt < NG2R; rt++) for (int k = 0; k < NSC; k++) RUN2("g2m", rt, k); vf_bound_done(bn); }
 	snprintf(bn, sizeof bn, "c12-k%d-g1-every-multiplication-routine", K_); if (vf_bound_on(bn)) { for (int rt = 0; rt < NG1R; rt++) for (int k = 0; k < NSC; k++) RUN2("g1m", rt, k); vf_bound_done(bn); }
@@ -273,6 +364,10 @@ static void enumerate(void) {
 	snprintf(bn, sizeof bn, "c12-k%d-gt-exponentiation-forms", K_); if (vf_bound_on(bn)) { for (int rt = 0; rt < NGER; rt++) for (int k = 0; k < (rt == 7 ? K_ + 2 : NSC); k++) RUN2("gte", rt, k); vf_bound_done(bn); }
 	snprintf(bn, sizeof bn, "c12-k%d-validity-predicates", K_); if (vf_bound_on(bn)) { for (int k = 0; k < NSC; k++) RUN2("val", 0, k); for (int i = 0; i < 12; i++) RUN2("val", 1, i); vf_bound_done(bn); }
 	snprintf(bn, sizeof bn, "c11-k%d-twist-points-outside-the-subgroup-and-cofactor", K_); if (vf_bound_on(bn)) { for (int i = 0; i < (vf_tier ? 12 : 4); i++) RUN2("val", 2, i); vf_bound_done(bn); }
+	snprintf(bn, sizeof bn, "c07-k%d-decoding-altered-encodings-three-destinations", K_); if (vf_bound_on(bn)) {
+		for (int grp = 1; grp <= 2; grp++) for (int j = 0; j < NLI; j++) for (int pack = 0; pack < 2; pack++) { for (int mut = 0; mut <= 6; mut++) for (int ch = 0; ch < 2 * (grp == 1 ? 1 : G2D); ch++) { if (vf_mine() && !vf_expired()) { K.op = "dec"; K.n = 5; mpz_set_si(K.v[0], grp); mpz_set_si(K.v[1], j); mpz_set_si(K.v[2], pack); mpz_set_si(K.v[3], mut); mpz_set_si(K.v[4], ch); vf_run(&K); } }
+			static const int TG[] = {0, 1, 2, 3, 4, 5, 6, 7, 8, 0x10, 0x80, 0xFF}; for (int t = 0; t < 12; t++) if (vf_mine() && !vf_expired()) { K.op = "dec"; K.n = 5; mpz_set_si(K.v[0], grp); mpz_set_si(K.v[1], j); mpz_set_si(K.v[2], pack); mpz_set_si(K.v[3], 100 + TG[t]); mpz_set_si(K.v[4], 0); vf_run(&K); } }
+		vf_bound_done(bn); }
 	snprintf(bn, sizeof bn, "c07-k%d-group-element-encodings", K_); if (vf_bound_on(bn)) { for (int grp = 0; grp < 3; grp++) for (int j = 0; j < NLI; j++) for (int pack = 0; pack < 2; pack++) RUN3("cod", grp, j, pack); vf_bound_done(bn); }
 	snprintf(bn, sizeof bn, "c13-k%d-hashing-to-the-groups", K_); if (vf_bound_on(bn)) { static const long ML[] = {0, 1, 2, 3, 7, 8, 15, 16, 31, 32, 33, 47, 48, 63, 64, 65, 100, 127, 128, 129, 200, 255, 256, 1000}; for (unsigned i = 0; i < sizeof ML / sizeof *ML; i++) for (int pat = 0; pat < 3; pat++) RUN2("map", ML[i], pat); vf_bound_done(bn); }
 	vf_stat_add("transitions", transitions);
